@@ -12,8 +12,10 @@ from . import build, harness as H
 NATIVE = os.path.join(VERIF, 'native')
 
 
-def build_thr(variant, san='asan', fn=False, repo=None):
+def build_thr(variant, san='asan', fn=False, repo=None, io=False):
     extra = ['-finstrument-functions'] if fn else []
+    if io:
+        extra += ['-Dwrite=vs_write', '-Dwritev=vs_writev', '-Dclose=vs_close']
     v = build.build_variant(variant, san=san, sched=True, extra_cflags=extra, repo=repo)
     rec = build.build_shared('librec.so', [os.path.join(NATIVE, 'rec.c')])
     # the scheduler itself: no sanitizer, no instrumentation
